@@ -1201,6 +1201,18 @@ func (g *c11Gen) next() c11Op {
 			c11Op{Op: "verify", Node: other, Cred: &c, Down: []int{l.Node}},
 			c11Op{Op: "verify", Node: other, Cred: &c})
 		return c11Op{Op: "verify", Node: other, Cred: &c}
+	case k >= 87 && k < 90 && len(g.entries) > 0 && g.nticks <= 12:
+		// hostile sequence (every list the node serves is validly signed and not about to expire): a list is served, time passes
+		// until it is inside the refresh window or already expired, then it is requested while the signer is unavailable — the
+		// re-issue fails and the request must fail with it (not fall back to the stored, (nearly) expired list); then healthy again
+		e := g.entries[r.Intn(len(g.entries))]
+		sv := func(fail bool) c11Op {
+			return c11Op{Op: "serve", Node: e.list.Node, Issuer: e.list.Issuer, Page: e.list.Page, SignFail: fail}
+		}
+		g.pending = append(g.pending,
+			c11Op{Op: "tick", Secs: []int{72, 73, 80, 95, 96, 97, 200}[r.Intn(7)]*900 + 60},
+			sv(true), sv(true), sv(false))
+		return sv(false)
 	case k >= 84 && k < 87:
 		// hostile sequence (a status entry is honoured only from the list the credential itself names, and stays honoured):
 		// list V (valid, bit j set) is cached by a verification that answers revoked; then ANOTHER url A serves a validly
